@@ -24,7 +24,23 @@ def expected_enum(pfx):
     return "n0=%d n1=%d n3=%d nx=0 h=%d" % (c[0], c[1], c[3], h)
 
 def run(R):
+    R.with_statics = True        # the call graph and external callees of lib/*.c are regenerated (C18_locale_free is decided over them)
     ok, badthm = R.prove()
+    static_bad = []
+    if not ok and any("C18_locale_free" in t for t in badthm):
+        # name the call: which function on the way from crypt_checksalt reaches into locale-dependent libc
+        import re as re2, os as os2
+        ld = R.lean_dir or os2.path.join(os2.path.dirname(os2.path.abspath(__file__)), "..", "lean")
+        txt = open(os2.path.join(ld, "Xc/Gen/Statics.lean")).read()
+        allowed = {"strlen", "strnlen", "strcmp", "strncmp", "strchr", "strrchr", "strspn", "strcspn", "strpbrk", "strstr", "memcmp", "memchr", "memmem", "memcpy", "memmove",
+                   "memset", "strcpy", "strncpy", "__errno_location"}
+        for lst, fn in re2.findall(r'\[([^\]]*)\] /- ([A-Za-z_0-9]+) -/', txt.split("def st_ext")[1].split("def ")[0]):
+            if fn in ("_crypt_crypt_checksalt", "crypt_checksalt", "check_badsalt_chars", "get_hashfn", "is_des_salt_char"):
+                for e in re2.findall(r'"([^"]+)"', lst):
+                    if e not in allowed:
+                        static_bad.append(("crypt_checksalt -> " + fn, "%s calls %s: %s" % (fn, e, "the <ctype.h> classification (isgraph, isalnum, ...) answers according to the process "
+                                           "locale - after setlocale() to a single-byte locale bytes >= 0x80 count as letters - so crypt_checksalt and crypt's argument "
+                                           "validation no longer depend on the characters of the setting alone" if "ctype" in e else "not a function of its arguments alone"), ""))
     quick = R.tier == "quick"
     ops, exp = [], []
     def add(op, e): ops.append(op); exp.append(e)
@@ -69,7 +85,7 @@ def run(R):
     def proj(op, a, b):
         return None if a == b or (op.startswith("G ") and a.get("ret") == b.get("ret") and a.get("errno") == b.get("errno")) else "differs"
     diffs = compare(R, ops, il, ml, proj, "checksalt enumeration + preferred")
-    bad = []
+    bad = list(static_bad)
     n_strings = 0
     for op, e, line in zip(ops, exp, il):
         if op.startswith("KE"): n_strings += 255
